@@ -156,7 +156,7 @@ func genSchema(r *rand.Rand) *gSchema {
 	argsByName := map[int][]gArg{}
 	var genArgs0 func() []gArg
 	genArgsFor := func(name int) []gArg {
-		if a, ok := argsByName[name]; ok && chance(r, 0.9) {
+		if a, ok := argsByName[name]; ok && chance(r, 0.75) {
 			return a
 		}
 		a := genArgs0()
